@@ -2,6 +2,8 @@
 
 from __future__ import annotations
 
+from ..vloop import texc
+
 import bisect
 import datetime
 import itertools
@@ -261,7 +263,7 @@ def run_case(si: int, vis: tuple[int, ...]) -> list[tuple[str, str]]:
                 if not t.done():
                     viols.append(("command-does-not-return", f"{scn.label}: {v!r}"))
                     break
-                if t.exception() is not None:
+                if texc(t) is not None:
                     break  # a refused value is not an accepted one (what may be refused is C11's subject)
                 sent = w.iface.sent[n_before:]
                 try:
